@@ -400,7 +400,7 @@ pub fn exec(op: &str, a: &[u64]) -> Result<Outcome, String> {
                 if let Some(s) = child.try_wait().map_err(|e| e.to_string())? {
                     break Some(s);
                 }
-                if start.elapsed() > Duration::from_secs(10) {
+                if start.elapsed() > Duration::from_secs(60) {
                     child.kill().ok();
                     child.wait().ok();
                     break None;
